@@ -510,6 +510,125 @@ func check(verifDir, repo, id, tier, replay string) int {
 		}
 	}
 
+	// Isolation phase. Many simulated processes share one OS process, so package-level state
+	// of a changed tree (a semaphore that leaks, a map of operations in flight) survives from
+	// one run into the next; when that made workers hang or die on a channel of an earlier
+	// run, the verdict so far says nothing about the code. The same run indices are then
+	// executed with ONE OS PROCESS PER RUN (slower, hence only now and only a bounded number),
+	// which is what a restart between runs really looks like.
+	isoNeeded := false
+	for _, wr := range results {
+		if wr.hung || (wr.crashed && strings.Contains(wr.output, "from outside bubble")) {
+			isoNeeded = true
+		}
+	}
+	if isoNeeded && len(viols) == 0 && meta.Pkg != "pam" {
+		isoRuns := 150
+		if v, err := strconv.Atoi(os.Getenv("VERIF_ISO_RUNS")); err == nil && v > 0 {
+			isoRuns = v
+		}
+		var mu sync.Mutex
+		isoDone, isoHung := 0, 0
+		var iwg sync.WaitGroup
+		for k := 0; k < nworkers; k++ {
+			iwg.Add(1)
+			go func(k int) {
+				defer iwg.Done()
+				for j := 0; j < isoRuns; j++ {
+					mu.Lock()
+					stop := len(viols) > 0
+					mu.Unlock()
+					if stop {
+						return
+					}
+					idx := k + j*nworkers
+					out := filepath.Join(scratch, fmt.Sprintf("iso%d.jsonl", k))
+					cur := filepath.Join(scratch, fmt.Sprintf("iso%d.cur", k))
+					os.Remove(out)
+					wd := filepath.Join(scratch, fmt.Sprintf("wd%d", k))
+					cmd := workerCmd(bins[pkgOf(k)], meta, wd)
+					cmd.Env = append(baseEnv(),
+						"VERIF_PROP="+id, "VERIF_TIER="+tier, fmt.Sprintf("VERIF_BASE=%d", seed),
+						fmt.Sprintf("VERIF_FROM=%d", idx), fmt.Sprintf("VERIF_TO=%d", idx+1), "VERIF_STRIDE=1",
+						"VERIF_BUDGET_MS=600000", "VERIF_OUT="+out, "VERIF_CUR="+cur, "VERIF_NOMIN=1",
+						"VERIF_KNOWN="+strings.Join(knownSigs, ","), "GOMAXPROCS=2", "VERIF_REPO_DIR="+repo, "VERIF_DIR="+verifDir, "VERIF_PAMSIM="+pamsimBin)
+					var ob bytes.Buffer
+					cmd.Stdout, cmd.Stderr = &ob, &ob
+					if cmd.Start() != nil {
+						return
+					}
+					done := make(chan error, 1)
+					go func() { done <- cmd.Wait() }()
+					var err error
+					hung := false
+					select {
+					case err = <-done:
+					case <-time.After(60 * time.Second):
+						hung = true
+						cmd.Process.Signal(syscall.SIGQUIT)
+						select {
+						case <-done:
+						case <-time.After(10 * time.Second):
+							cmd.Process.Kill()
+							<-done
+						}
+					}
+					lines := readLines(out)
+					mu.Lock()
+					isoDone++
+					if hung {
+						isoHung++
+					}
+					for _, l := range lines {
+						if l.Type == "violation" {
+							l.Tier = pkgOf(k)
+							viols = append(viols, l)
+						}
+					}
+					if hung && meta.Liveness {
+						// a single simulated process, alone in its OS process, that never finishes: some
+						// goroutine of the code under test blocks in a way the simulator cannot see (a
+						// channel or lock created outside the run). For the liveness property that IS
+						// the finding; the replay re-runs the seed and expects the hang again.
+						if fn := hangSite(ob.String(), repo); fn != "" {
+							b, _ := os.ReadFile(cur)
+							f := strings.Fields(strings.TrimSpace(string(b)))
+							if len(f) == 2 {
+								rs, _ := strconv.ParseUint(f[1], 10, 64)
+								viols = append(viols, resultLine{Type: "violation", Prop: id, Sig: "hang/blocked-in-" + fn, Seed: rs, Idx: idx, Tier: pkgOf(k),
+									Msg: "run " + f[0] + " never finished (60 s of real time, one OS process for this run alone): a goroutine of the code under test is blocked in " + fn + " on something outside the simulator's view",
+									Log: []string{"(hang: seed-only replay)"}, LogHash: "hang"})
+							}
+						}
+					}
+					if !hung && err != nil {
+						if sig := crashSignature(ob.String(), repo); sig != "" {
+							b, _ := os.ReadFile(cur)
+							f := strings.Fields(strings.TrimSpace(string(b)))
+							if len(f) == 2 {
+								rs, _ := strconv.ParseUint(f[1], 10, 64)
+								tail := ob.String()
+								if len(tail) > 4000 {
+									tail = tail[:2000] + "\n...\n" + tail[len(tail)-2000:]
+								}
+								viols = append(viols, resultLine{Type: "violation", Prop: id, Sig: sig, Seed: rs, Idx: idx, Tier: pkgOf(k),
+									Msg: "the process crashed (unrecovered panic in a goroutine of the code under test):\n" + tail, Log: []string{"(process-level crash: seed-only replay)"}, LogHash: "crash"})
+							}
+						}
+					}
+					mu.Unlock()
+				}
+			}(k)
+		}
+		iwg.Wait()
+		agg.Stats["isolation-phase-runs"] = isoDone
+		fmt.Printf("isolation phase: %d runs with one OS process each (%d of them hung), %d violation(s)\n", isoDone, isoHung, len(viols))
+		if len(viols) > 0 {
+			// the hang / crash of the shared workers is explained; what isolation found is the verdict
+			cannot = nil
+		}
+	}
+
 	// dedupe violations by signature, confirm each by replay in a fresh process
 	sort.Slice(viols, func(i, j int) bool {
 		if viols[i].Sig != viols[j].Sig {
@@ -538,10 +657,16 @@ func check(verifDir, repo, id, tier, replay string) int {
 		}
 		h := sha256.Sum256([]byte(v.Sig))
 		rp := filepath.Join(replayDir, fmt.Sprintf("%s-%s-%d.json", id, hex.EncodeToString(h[:4]), v.Seed))
-		rf := replayFile{Prop: id, Sig: v.Sig, Msg: v.Msg, Seed: v.Seed, Tier: tier, Tape: v.Tape, Decisions: v.Decisions, Log: v.Log, LogHash: v.LogHash, OrigLen: v.OrigLen, Pkg: v.Tier, SeedOnly: v.LogHash == "crash"}
+		rf := replayFile{Prop: id, Sig: v.Sig, Msg: v.Msg, Seed: v.Seed, Tier: tier, Tape: v.Tape, Decisions: v.Decisions, Log: v.Log, LogHash: v.LogHash, OrigLen: v.OrigLen, Pkg: v.Tier, SeedOnly: v.LogHash == "crash" || v.LogHash == "hang"}
 		b, _ := json.MarshalIndent(rf, "", " ")
 		os.WriteFile(rp, b, 0o644)
-		if v.LogHash != "crash" {
+		if v.LogHash == "hang" {
+			// confirmation: the same seed, alone in a fresh process, hangs again at the same place
+			if fn := replayHang(bins[v.Tier], scratch, id, rp, meta, repo); "hang/blocked-in-"+fn != v.Sig {
+				cannot = append(cannot, fmt.Sprintf("replay of %s did not hang again (got %q)", rp, fn))
+				continue
+			}
+		} else if v.LogHash != "crash" {
 			// fresh-process confirmation
 			rl, out, err := runReplay(bins[v.Tier], scratch, id, rp, knownSigs, meta)
 			if err != nil || rl == nil {
@@ -652,6 +777,73 @@ func crashSignature(out, repo string) string {
 	return ""
 }
 
+// hangSite names the function of the code under test in which a goroutine of a hung run is
+// blocked (channel operation, select or lock), from a SIGQUIT goroutine dump.
+func hangSite(out, repo string) string {
+	var found []string
+	for _, g := range strings.Split(out, "\n\n") {
+		lines := strings.Split(g, "\n")
+		if len(lines) < 3 || !strings.HasPrefix(lines[0], "goroutine ") {
+			continue
+		}
+		h := lines[0]
+		if !(strings.Contains(h, "[chan send") || strings.Contains(h, "[chan receive") || strings.Contains(h, "[select") || strings.Contains(h, "[sync.") || strings.Contains(h, "[semacquire")) {
+			continue
+		}
+		for i := 1; i+1 < len(lines); i++ {
+			t := strings.TrimSpace(lines[i+1])
+			if strings.HasPrefix(t, repo+"/") && !strings.Contains(t, "/zz_") && !strings.Contains(t, "/zzverif/") {
+				fn := strings.TrimSpace(lines[i])
+				if j := strings.LastIndex(fn, "("); j > 0 {
+					fn = fn[:j] // the argument list; receivers such as (*store) stay
+				}
+				if j := strings.LastIndex(fn, "/"); j >= 0 {
+					fn = fn[j+1:]
+				}
+				// only the innermost repo frame counts, and only if nothing of the simulator is below it
+				if i == 1 || !strings.Contains(strings.Join(lines[1:i], "\n"), "/zzverif/") {
+					found = append(found, fn)
+				}
+				break
+			}
+		}
+	}
+	// the dump order of goroutines varies: the alphabetically first site is the stable name
+	sort.Strings(found)
+	if len(found) > 0 {
+		return found[0]
+	}
+	return ""
+}
+
+// replayHang re-runs the seed of a hang replay file alone in a fresh process and returns the
+// hang site ("" if the run finishes within a minute).
+func replayHang(bin, scratch, id, rp string, meta propInfo, repo string) string {
+	out := filepath.Join(scratch, "replayhang.jsonl")
+	cmd := workerCmd(bin, meta, scratch)
+	cmd.Env = append(baseEnv(), "VERIF_PROP="+id, "VERIF_REPLAY="+rp, "VERIF_REPLAY_SEARCH=1", "VERIF_OUT="+out, "GOMAXPROCS=2", "VERIF_NOMIN=1")
+	var ob bytes.Buffer
+	cmd.Stdout, cmd.Stderr = &ob, &ob
+	if cmd.Start() != nil {
+		return ""
+	}
+	done := make(chan error, 1)
+	go func() { done <- cmd.Wait() }()
+	select {
+	case <-done:
+		return ""
+	case <-time.After(60 * time.Second):
+		cmd.Process.Signal(syscall.SIGQUIT)
+		select {
+		case <-done:
+		case <-time.After(10 * time.Second):
+			cmd.Process.Kill()
+			<-done
+		}
+	}
+	return hangSite(ob.String(), repo)
+}
+
 func workerCmd(bin string, meta propInfo, wd string) *exec.Cmd {
 	var cmd *exec.Cmd
 	if meta.Pkg == "pam" {
@@ -720,6 +912,18 @@ func doReplay(bin, scratch, id, rp string, known []string, meta propInfo) int {
 	var rf replayFile
 	if err := json.Unmarshal(b, &rf); err != nil {
 		die2("%v", err)
+	}
+	if rf.SeedOnly && strings.HasPrefix(rf.Sig, "hang/") {
+		repo := os.Getenv("VERIF_REPO")
+		if repo == "" {
+			repo = "/repo"
+		}
+		if fn := replayHang(bin, scratch, id, rp, meta, repo); "hang/blocked-in-"+fn == rf.Sig {
+			fmt.Printf("VIOLATION property=%s replay=%s\n  reproduced: %s (the run hangs again)\n", id, rp, rf.Sig)
+			return 1
+		}
+		fmt.Printf("replay of %s did not reproduce the hang\n", rp)
+		return 0
 	}
 	if rf.SeedOnly {
 		// process-level crash: re-run that seed in search mode and expect the process to die the same way
